@@ -4,8 +4,10 @@ package c02
 import (
 	"bytes"
 	"fmt"
+	"os"
 	"strings"
 	"testing"
+	"time"
 
 	"github.com/wrgl/wrgl/pkg/objects"
 	"github.com/wrgl/wrgl/pkg/ref"
@@ -324,6 +326,9 @@ func runCLI(c Case) (o evid.Outcome, err error) {
 	if _, err := repo.WriteFile("data.csv", permuted(c.Table, c.Perm).CSV(delim)); err != nil {
 		return o, fmt.Errorf("HARNESS: %v", err)
 	}
+	// the file "was last modified a while ago": older than the cached ingest the next commit makes
+	past := time.Now().Add(-time.Hour)
+	os.Chtimes(fp, past, past)
 	out, err := repo.Run("commit", "main", "second", "-n", fmt.Sprint(c.Cfg2.Workers), "--mem-limit", fmt.Sprint(ingestx.RunSize(rows, c.Cfg2.Spills)))
 	if err != nil {
 		return o, fmt.Errorf("second commit: %v (%s)", err, out)
@@ -337,6 +342,45 @@ func runCLI(c Case) (o evid.Outcome, err error) {
 	}
 	if !strings.Contains(out, "hasn't changed") {
 		return o, fmt.Errorf("unchanged data not reported as unchanged: %q", out)
+	}
+	// same file, other key order: identity depends on the key choice, so the branch must move to
+	// the table that ingesting the rows under the new key order gives
+	if len(c.Table.PK) >= 2 {
+		rev := permuted(c.Table, c.Perm)
+		rev.PK = append([]int{}, c.Table.PK...)
+		for i, j := 0, len(rev.PK)-1; i < j; i, j = i+1, j-1 {
+			rev.PK[i], rev.PK[j] = rev.PK[j], rev.PK[i]
+		}
+		if out, err := repo.Run("config", "set", "branch.main.primaryKey", strings.Join(rev.PKNames(), ",")); err != nil {
+			return o, fmt.Errorf("HARNESS: config set primaryKey: %v (%s)", err, out)
+		}
+		out, err := repo.Run("commit", "main", "key order changed", "-n", fmt.Sprint(c.Cfg2.Workers), "--mem-limit", fmt.Sprint(ingestx.RunSize(rows, c.Cfg2.Spills)))
+		if err != nil {
+			return o, fmt.Errorf("commit after changing the key order: %v (%s)", err, out)
+		}
+		headK, err := headOf(repo)
+		if err != nil {
+			return o, err
+		}
+		db, _, closeFn, err := repo.Open()
+		if err != nil {
+			return o, fmt.Errorf("HARNESS: %v", err)
+		}
+		comK, cerr := objects.GetCommit(db, headK)
+		closeFn()
+		if cerr != nil {
+			return o, fmt.Errorf("head commit unreadable: %v", cerr)
+		}
+		mem := stores.NewMem()
+		want, err := ingestx.Table(mem, rev, c.Cfg2)
+		if err != nil {
+			return o, fmt.Errorf("memory-store ingest: %v", err)
+		}
+		if !bytes.Equal(comK.Table, want) {
+			return o, fmt.Errorf("branch.primaryKey changed from %q to %q (same file): `wrgl commit` left the branch on table %x (output %q), the rows keyed by the new order are table %x", c.Table.PKNames(), rev.PKNames(), comK.Table, strings.TrimSpace(out), want)
+		}
+		head2 = headK
+		o.Class("key-order-changed")
 	}
 	// the other direction through the same path: editing the branch file right away (same second
 	// or not) must be noticed - one more row is other content, so the branch moves to a new table
